@@ -243,7 +243,7 @@ _ADD4 = {
  "C13": " + objects with container-annotated fields set to None / empty / filled + a subclass that adds a field to a Serializable base class",
  "C14": " (the observation loop stops after three watchdog hits)",
  "C15": " + a Set of nested objects",
- "C16": " + bindings compared exactly as reported",
+ "C16": " + bindings compared exactly as reported + a literal followed by a line feed in the path alphabet",
  "C18": " + the bytes written by the library's own writers on a recording socket against the RFC 6455 encoding, for random masking keys + a scripted fragmented client message (open finding ws-continuation-frame-desync)",
  "C19": " + the two length bytes edited together, digests truncated together with their length byte, damage that a lenient base64 reader skips",
 }
@@ -251,4 +251,4 @@ for _k, _t in _ADD4.items():
     CHECKS[_k]["technique"] += _t
 NOTES = NOTES.replace("Extension checks X01..X05", "Extension checks X01..X12")
 NOTES += (" audit/ holds demonstration programs written by independent sub-agents that audited the unchanged tree against the property texts (DESIGN 7.6); "
-          "the defects among them that were repaired are the `fixed:` lines D22..D30 of KNOWN_FINDINGS.txt.")
+          "the defects among them that were repaired are the `fixed:` lines D22..D31 of KNOWN_FINDINGS.txt.")
